@@ -8,10 +8,11 @@ Import ListNotations.
 
 Theorem zod_order_full o p out : ord_ok o -> in_domain p = true ->
   kf_c07_field_result p = false -> kf_c07_odd_name p = false -> kf_c07_inline_mod p = false ->
+  kf_c07_payload_expr p = false ->
   acyclic (spec_graph p) -> emitted_zod o p = Some out ->
   NoDup out /\ forall u v, In u out -> In v out -> In v (schema_refs p u) -> idx_before out v u.
 Proof.
-  intros Ho Hdom K5 K6 K7 Hac He.
-  apply (zod_order_spec o p out Ho (agree_from_classes p Hdom K5 K6 K7) Hac); auto.
+  intros Ho Hdom K5 K6 K7 K8 Hac He.
+  apply (zod_order_spec o p out Ho (agree_from_classes p Hdom K5 K6 K7 K8) Hac); auto.
   exact (edges_recorded_from_classes p Hdom K5 K6 K7).
 Qed.
